@@ -221,43 +221,147 @@ def observe_edfa(e, added):
             'nf_ripple': [float(x) for x in e.interpol_nf_ripple], '_params': e.params}
 
 
-def drive(case):
-    """run the real amplifier; rec['out'] = 'E:Type' or dict(f, sig, ase, nli), rec['amps'] = per-Edfa observations"""
+def build_element(case, gains=None):
+    """the real amplifier element of a case (fresh objects); gains overrides the set gain of each band amplifier"""
     from gnpy.core.elements import Edfa, Multiband_amplifier
-    from gnpy.core.info import SpectralInformation
     amp, alldict = get_amp(case)
-    rec = {'amps': []}
-    added_log = []
-    orig = SpectralInformation.add_ase
+    ops = [dict(op) for op in case['op']]
+    if gains is not None:
+        for op, g in zip(ops, gains):
+            op['gain_target'] = g
+    if case['multi']:
+        amps = [{'type_variety': v, 'operational': op, 'params': copy.deepcopy(alldict[v].__dict__)}
+                for v, op in zip(amp.multi_band, ops)]
+        el = Multiband_amplifier(uid='amp', params=copy.deepcopy(amp.__dict__), amplifiers=amps)
+        return el, list(el.amplifiers.values())
+    el = Edfa(uid='amp', params=copy.deepcopy(amp.__dict__), operational=ops[0])
+    return el, [el]
 
-    def wrapped(self, ase):
+
+def propagate_once(el, edfas, chans):
+    """one call of the element on a spectrum; rec['out'] = 'E:Type' or dict(f, sig, ase, nli), rec['amps'] = observations
+    of the band amplifiers that were used, rec['gain_before'] = their effective gain when the call started"""
+    from gnpy.core.elements import Edfa
+    from gnpy.core.info import SpectralInformation
+    rec = {'amps': [], 'edfas': edfas, 'gain_before': [float(e.effective_gain) for e in edfas]}
+    added_log, used = [], []
+    orig_add, orig_prop = SpectralInformation.add_ase, Edfa.propagate
+
+    def wrapped_add(self, ase):
         added_log.append([float(x) for x in ase])
-        return orig(self, ase)
-    SpectralInformation.add_ase = wrapped
+        return orig_add(self, ase)
+
+    def wrapped_prop(self, spectral_info):
+        used.append(self)
+        return orig_prop(self, spectral_info)
+    SpectralInformation.add_ase = wrapped_add
+    Edfa.propagate = wrapped_prop
     try:
-        si = make_si(case['chan'])
-        if case['multi']:
-            amps = [{'type_variety': v, 'operational': dict(op), 'params': copy.deepcopy(alldict[v].__dict__)}
-                    for v, op in zip(amp.multi_band, case['op'])]
-            el = Multiband_amplifier(uid='amp', params=copy.deepcopy(amp.__dict__), amplifiers=amps)
-            edfas = list(el.amplifiers.values())
-        else:
-            el = Edfa(uid='amp', params=copy.deepcopy(amp.__dict__), operational=dict(case['op'][0]))
-            edfas = [el]
-        rec['edfas'] = edfas
         try:
-            out = el(si)
+            out = el(make_si(chans))
             rec['out'] = {'f': [float(x) for x in out.frequency], 'sig': [float(x) for x in out.signal],
                           'ase': [float(x) for x in out.ase], 'nli': [float(x) for x in out.nli]}
-            used = [e for e in edfas if e.pin_db is not None]
             for e, added in zip(used, added_log):
-                rec['amps'].append(observe_edfa(e, added))
+                o = observe_edfa(e, added)
+                o['gain_target'] = rec['gain_before'][[id(x) for x in edfas].index(id(e))]
+                rec['amps'].append(o)
         except Exception as ex:  # noqa
             rec['out'] = f'E:{type(ex).__name__}'
             rec['exc'] = str(ex)
     finally:
-        SpectralInformation.add_ase = orig
+        SpectralInformation.add_ase = orig_add
+        Edfa.propagate = orig_prop
     return rec
+
+
+def drive(case):
+    """fresh element, one spectrum"""
+    el, edfas = build_element(case)
+    return propagate_once(el, edfas, case['chan'])
+
+
+def same_result(a, b, tol=1e-12):
+    """two propagation records agree (outcome, effective gain, NF, gain profile, added ASE, every output component)"""
+    if isinstance(a['out'], str) or isinstance(b['out'], str):
+        return None if a['out'] == b['out'] else f"outcome {a['out']} vs {b['out']}"
+    if len(a['amps']) != len(b['amps']):
+        return f"{len(a['amps'])} band amplifiers used vs {len(b['amps'])}"
+    for k, (x, y) in enumerate(zip(a['amps'], b['amps'])):
+        for key in ('eff', 'pin_db'):
+            if abs(x[key] - y[key]) > tol * max(1, abs(x[key])):
+                return f'band {k} {key}: {x[key]!r} vs {y[key]!r}'
+        for key in ('nf', 'gprofile', 'added_ase'):
+            d = cmp_list(x[key], y[key], f'band {k} {key}', tol=tol, absolute=key != 'added_ase', names=('used amplifier', 'fresh amplifier'))
+            if d:
+                return d
+    for key in ('f', 'sig', 'ase', 'nli'):
+        d = cmp_list(a['out'][key], b['out'][key], key, tol=tol, names=('used amplifier', 'fresh amplifier'))
+        if d:
+            return d
+    return None
+
+
+# ------------------------------------------------------------------ histories: one amplifier object, several spectra
+def regrid(rng, chans, f_min, f_max, relation):
+    """next spectrum of a history, derived from the in-band uniform part of the previous one"""
+    fs = [c[0] for c in chans]
+    slot, baud = chans[0][1], chans[0][2]
+    n = len(chans)
+    if relation == 'same':
+        new = [[f, c[1], c[2]] for f, c in zip(fs, chans)]
+    elif relation == 'stride2':          # same first carrier, same count, every other position
+        step = 2 * (fs[1] - fs[0]) if n > 1 else slot
+        new = [[fs[0] + i * step, slot, baud] for i in range(n)]
+    elif relation == 'shift':            # same count, moved by a few positions: overlaps the old grid
+        step = fs[1] - fs[0] if n > 1 else slot
+        k = rng.choice([1, 2, 3, max(1, n // 2)])
+        new = [[f + k * step, slot, baud] for f in fs]
+    elif relation == 'tail_moved':       # same count, only the upper half moves by half a step
+        step = fs[1] - fs[0] if n > 1 else slot
+        new = [[f if i < n // 2 else f + step, slot, baud] for i, f in enumerate(fs)]
+    elif relation == 'subset':
+        keep = sorted(rng.sample(range(n), max(1, n - rng.randint(1, max(1, n // 2)))))
+        new = [[fs[i], slot, baud] for i in keep]
+    else:                                # 'grow': more channels on the same pitch
+        step = fs[1] - fs[0] if n > 1 else slot
+        new = [[fs[0] + i * step, slot, baud] for i in range(n + rng.randint(1, 6))]
+    new = [c for c in new if c[0] - c[1] / 2 >= f_min and c[0] + c[1] / 2 <= f_max]
+    return new or [[f, c[1], c[2]] for f, c in zip(fs, chans)]
+
+
+def gen_history(rng, keys, rippled):
+    lib = library()
+    key = rng.choice(rippled) if rippled and rng.random() < 0.5 else rng.choice(keys)
+    amp = lib[key][0]
+    case = {'amp': {'lib': key[0], 'variety': key[1]}, 'multi': amp.type_def == 'multi_band'}
+    subs = [lib[(key[0], v)][0] for v in amp.multi_band] if case['multi'] else [amp]
+    ops, first = [], []
+    for a in subs:
+        gain = rng.uniform(a.gain_min - 2, a.gain_flatmax + 2)
+        ops.append({'gain_target': gain, 'tilt_target': rng.choice([0.0, rng.uniform(-2, 2)]),
+                    'out_voa': rng.choice([0.0, rng.uniform(0, 2)]), 'in_voa': rng.choice([0.0, None, rng.uniform(0, 1)])})
+        slot = rng.choice([50e9, 50e9, 75e9, 100e9])
+        room = int((a.f_max - a.f_min) / slot) - 1
+        n = rng.randint(2, max(2, min(40, room // 2)))
+        k0 = rng.randint(0, max(0, room // 2 - n))
+        first.append([[a.f_min + slot * (k0 + 0.5 + i), slot, rng.choice([slot * 0.64, 32e9 if slot >= 32e9 else slot * 0.8])]
+                      for i in range(n)])
+    steps = []
+    cur = first
+    for s in range(rng.randint(2, 4)):
+        if s:
+            cur = [regrid(rng, c, a.f_min, a.f_max, rng.choice(['same', 'stride2', 'stride2', 'shift', 'tail_moved', 'subset', 'grow']))
+                   for c, a in zip(cur, subs)]
+        chans = []
+        for c, a, op in zip(cur, subs, ops):
+            tot = a.p_max - op['gain_target'] + rng.choice([-20, -8, -3, 0.5, 3])     # below ... above saturation
+            flat = rng.random() < 0.5
+            w = [1.0 if flat else 10 ** (rng.uniform(-3, 3) / 10) for _ in c]
+            for wi, ch_ in zip(w, c):
+                chans.append([ch_[0], ch_[1], ch_[2], 10 ** (tot / 10) * 1e-3 * wi / sum(w), rng.choice([0.0, 1e-3]), rng.choice([0.0, 1e-4])])
+        steps.append(sorted(chans, key=lambda c: c[0]))
+    case.update({'op': ops, 'history': steps, 'regime': []})
+    return case
 
 
 # ------------------------------------------------------------------ property oracle (implementation only)
@@ -479,7 +583,7 @@ def parse_obs(s):
             'added_ase': lst(parts[4]), 'f': lst(parts[5]), 'sig': lst(parts[6]), 'ase': lst(parts[7]), 'nli': lst(parts[8])}
 
 
-def cmp_list(a, b, what, tol=TOL, absolute=False):
+def cmp_list(a, b, what, tol=TOL, absolute=False, names=('implementation', 'model')):
     if len(a) != len(b):
         return f'{what}: {len(a)} values vs {len(b)}'
     for i, (x, y) in enumerate(zip(a, b)):
@@ -487,7 +591,7 @@ def cmp_list(a, b, what, tol=TOL, absolute=False):
             continue
         ok = abs(x - y) <= tol * max(1.0, abs(x)) if absolute else close(x, y, tol)
         if not ok:
-            return f'{what}[{i}]: implementation {x!r} model {y!r}'
+            return f'{what}[{i}]: {names[0]} {x!r} {names[1]} {y!r}'
     return None
 
 
@@ -550,7 +654,7 @@ def run(ctx):
     if ctx.replay:
         cases = [json.load(open(ctx.replay))['case']]
     else:
-        n = ctx.scale(260, 3000)
+        n = ctx.scale(240, 3000)
         # every library entry at least once, then random
         for k in keys:
             c = None
@@ -559,6 +663,10 @@ def run(ctx):
                 if c and 'custom' in c['amp']:
                     c = None
             cases.append(c)
+        rippled = [k for k in keys if lib[k][0].type_def != 'multi_band'
+                   and (numpy.size(lib[k][0].gain_ripple) > 1 or numpy.size(lib[k][0].nf_ripple) > 1)]
+        for _ in range(ctx.scale(40, 500)):
+            cases.append(gen_history(rng, keys, rippled))
         while len(cases) < n:
             r = rng.random()
             c = gen_case(rng, keys, one=True if r < 0.03 else ('none' if r < 0.05 else False))
@@ -567,13 +675,8 @@ def run(ctx):
 
     tb = Tables()
     terms, meta = [], []
-    for c in cases:
-        try:
-            get_amp(c)
-        except KeyError:
-            ctx.count('skipped_library_missing')     # its library was rejected: reported above as library_load
-            continue
-        rec = drive(c)
+    def judge(c, rec, record=None):
+        """counters, property oracle and model term for one propagation (c: single-spectrum case, rec: its observation)"""
         numeric = not isinstance(rec['out'], str)
         ninb = len(rec['out']['f']) if numeric else 0
         ctx.case(strip(c), numeric and ninb >= 2)
@@ -591,15 +694,47 @@ def run(ctx):
             ctx.count('tilted')
         fails = oracle(c, rec)
         for key, desc in fails:
-            ctx.violation(key, desc, strip(c))
+            ctx.violation(key, desc, strip(record or c))
         if any(k == 'nonfinite_gain' for k, _ in fails):
             ctx.count('skipped_nonfinite')       # nothing finite to compare with the model
-            continue
+            return
         if c['multi']:
             terms.append('run_multi ' + listlit([amp_term(e, op, tb)[1:-1] for e, op in zip(rec['edfas'], c['op'])]) + ' ' + chan_terms(c['chan']))
         else:
             terms.append(f"run_edfa {amp_term(rec['edfas'][0], c['op'][0], tb)} {chan_terms(c['chan'])}")
-        meta.append((c, rec))
+        meta.append((record or c, rec))
+
+    for c in cases:
+        try:
+            get_amp(c)
+        except KeyError:
+            ctx.count('skipped_library_missing')     # its library was rejected: reported above as library_load
+            continue
+        if 'history' not in c:
+            judge(c, drive(c))
+            continue
+        # one amplifier object, several spectra in a row: every propagation is judged like a single one (with the gain
+        # the object holds when the call starts as its set gain) AND must equal what a fresh amplifier holding that
+        # gain does with the same spectrum
+        ctx.count('histories')
+        el, edfas = build_element(c)
+        for k, chans in enumerate(c['history']):
+            rec = propagate_once(el, edfas, chans)
+            upto = dict(c, history=c['history'][:k + 1])
+            el2, edfas2 = build_element(c, gains=rec['gain_before'])
+            rec2 = propagate_once(el2, edfas2, chans)
+            d = same_result(rec, rec2)
+            ctx.count('history_steps')
+            if k and [x[0] for x in chans] == [x[0] for x in c['history'][k - 1]]:
+                ctx.count('history_same_grid')
+            elif k and len(chans) == len(c['history'][k - 1]) and {x[0] for x in chans} & {x[0] for x in c['history'][k - 1]}:
+                ctx.count('history_same_count_overlapping_grid')
+            if d:
+                ctx.violation('history_dependence', f'propagation #{k + 1} on a used amplifier differs from a fresh amplifier '
+                              f'with the same gain and spectrum: {d}', strip(upto))
+            step_case = dict({kk: v for kk, v in c.items() if kk != 'history'}, chan=chans,
+                             op=[dict(op, gain_target=g) for op, g in zip(c['op'], rec['gain_before'])])
+            judge(step_case, rec, record=upto)
 
     # NF laws on every variable-gain library entry + random datasheets (implementation only)
     seen = set()
